@@ -709,6 +709,12 @@ pub fn run(p: &[String]) -> Vec<String> {
                     "defined_name" => { let mut name = String::from("N"); let mut addr = String::from("Sheet1!$A$1"); for (k, v) in &kv { if k == "set_name" { name = text(v); } if k == "set_address" { addr = text(v); } }
                         if addr.contains("My Sheet") { /* the sheet the address names must exist */ }
                         ws.add_defined_name(name, addr).unwrap(); let d = ws.get_defined_names_mut().last_mut().unwrap(); for (k, v) in &kv { match k.as_str() { "set_name" | "set_address" => {} "set_local_sheet_id" => d.set_local_sheet_id(num(v)), "set_hidden" => d.set_hidden(flag(v)), _ => panic!("setter {}", k) } } }
+                    "sheet_format_properties" => { let a = ws.get_sheet_format_properties_mut(); for (k, v) in &kv { match k.as_str() {
+                        "set_base_column_width" => { a.set_base_column_width(num(v)); } "set_custom_height" => { a.set_custom_height(flag(v)); } "set_default_column_width" => { a.set_default_column_width(v.parse().unwrap()); }
+                        "set_default_row_height" => { a.set_default_row_height(v.parse().unwrap()); } "set_dy_descent" => { a.set_dy_descent(v.parse().unwrap()); } "set_outline_level_column" => { a.set_outline_level_column(num(v) as u8); }
+                        "set_outline_level_row" => { a.set_outline_level_row(num(v) as u8); } "set_thick_bottom" => { a.set_thick_bottom(flag(v)); } "set_thick_top" => { a.set_thick_top(flag(v)); } _ => panic!("setter {}", k) } } }
+                    "print_options" => { let a = ws.get_print_options_mut(); for (k, v) in &kv { match k.as_str() { "set_horizontal_centered" => { a.set_horizontal_centered(flag(v)); } "set_vertical_centered" => { a.set_vertical_centered(flag(v)); } _ => panic!("setter {}", k) } } }
+                    "merge_cells" => { for (k, v) in &kv { if k.starts_with("add_range") { ws.add_merge_cells(text(v)); } else { panic!("setter {}", k) } } }
                     "workbook_protection" => {}
                     _ => panic!("struct {}", which),
                 }
@@ -744,6 +750,9 @@ pub fn run(p: &[String]) -> Vec<String> {
                     "pattern_fill" => match ws.get_style((1, 1)).get_fill() { None => "none".into(), Some(f) => { let p = f.get_pattern_fill(); match p { None => "no pattern".into(), Some(p) => format!("{:?} fg[{}] bg[{}]", p.get_pattern_type(), p.get_foreground_color().map(color).unwrap_or("-".into()), p.get_background_color().map(color).unwrap_or("-".into())) } } },
                     "color" => match ws.get_style((1, 1)).get_font() { None => "none".into(), Some(f) => color(f.get_color()) },
                     "sheet_view" => { let v = &ws.get_sheets_views().get_sheet_view_list()[0]; format!("{} {} {} {:?} {} {} {}", v.get_show_grid_lines(), v.get_tab_selected(), v.get_workbook_view_id(), v.get_view(), v.get_zoom_scale(), v.get_zoom_scale_normal(), v.get_top_left_cell()) }
+                    "sheet_format_properties" => { let a = ws.get_sheet_format_properties(); format!("{} {} {} {} {} {} {} {} {}", a.get_base_column_width(), a.get_custom_height(), a.get_default_column_width(), a.get_default_row_height(), a.get_dy_descent(), a.get_outline_level_column(), a.get_outline_level_row(), a.get_thick_bottom(), a.get_thick_top()) }
+                    "print_options" => { let a = ws.get_print_options(); format!("{} {}", a.get_horizontal_centered(), a.get_vertical_centered()) }
+                    "merge_cells" => ws.get_merge_cells().iter().map(|r| r.get_range()).collect::<Vec<_>>().join(","),
                     "row" => { let mut v: Vec<String> = ws.get_row_dimensions().iter().filter(|r| *r.get_row_num() != 1).map(|r| format!("{}: h={} d={} tb={} ch={} hid={}", r.get_row_num(), r.get_height(), r.get_descent(), r.get_thick_bot(), r.get_custom_height(), r.get_hidden())).collect(); v.sort(); v.join(" | ") }
                     "defined_name" => { let mut v: Vec<String> = book.get_sheet_collection().iter().flat_map(|w| w.get_defined_names().iter().map(|d| format!("{}={} local={} hidden={}", d.get_name(), d.get_address(), d.get_local_sheet_id(), d.get_hidden())).collect::<Vec<_>>()).collect(); v.extend(book.get_defined_names().iter().map(|d| format!("{}={} local={} hidden={}", d.get_name(), d.get_address(), d.get_local_sheet_id(), d.get_hidden()))); v.sort(); v.join(" | ") }
                     _ => String::new(),
